@@ -171,9 +171,9 @@ func PrepareQuery(ctx context.Context, typ Type, selectionSet *SelectionSet) err
 				if selection.SelectionSet != nil {
 					return NewClientError(`scalar field "__typename" must have no selection`)
 				}
-				for _, fragment := range selectionSet.Fragments {
-					fragment.SelectionSet.Selections = append(fragment.SelectionSet.Selections, selection)
-				}
+				// The executor resolves the union's own __typename selections together
+				// with the fragments of the member type; they are not added to the
+				// fragments here, because a named fragment is shared by all its spreads.
 				continue
 			}
 			return NewClientError(`unknown field "%s"`, selection.Name)
